@@ -167,6 +167,20 @@ one_pair (const unsigned char key[8], const unsigned char blk[8], int junk, int 
   gather (back, b64r);
   if (memcmp (back, blk, 8)) viol ("decrypt_r", "%s: decrypt_r(encrypt_r(x)) != x key=%s block=%s", cls, hk, hb);
 
+  /* the key vector and the block kept inside the object's own application fields (crypt.h invites
+     applications to use input/setting): setkey_r must read the key before it touches the object */
+  if ((blk[0] & 3) == 0)
+    {
+      spread (cd_b->input, key, 0);
+      p_setkey_r (cd_b->input, cd_b);
+      spread (cd_b->setting, blk, 0);
+      p_encrypt_r (cd_b->setting, 0, cd_b);
+      gather (got, cd_b->setting);
+      n_cmp++;
+      if (memcmp (got, want, 8))
+        viol ("arguments-inside-object", "%s: setkey_r(data->input, data); encrypt_r(data->setting, 0, data) differs from DES key=%s block=%s", cls, hk, hb);
+    }
+
   /* re-keying with the SAME key after the object was used for something else must key it again: crypt_r wipes
      the schedule, the caller may clear or overwrite the object */
   if (interleave || (key[1] & 7) == 0)
